@@ -179,6 +179,12 @@ def check_sub(cell, case, ctx):
     if k0[0] == "vec":
         ref_cart = k0[3]
         # representability of the exact result in the system it actually came back in
+        if opcheck.lossy_temporal(op.name, k1[1], ref_cart, (sa, sb)):
+            ctx.fail("result_system" + q, f"{op.name} {variant}: the result came back stored as {R.sysname(k1[1])} "
+                     f"{opcheck.fmt(k1[2])}, which cannot hold its exact time component {opcheck.fmt(ref_cart[3])} although an operand "
+                     f"stores t; operands a={opcheck.fmt(a)} b={opcheck.fmt(b) if b else None}", op=op.name, variant=variant,
+                     backend=backend)
+            return
         if not R.representable(k1[1], ref_cart, eps=0) or not R.representable(k0[1], ref_cart):
             ctx.exclude("result_not_representable")
             return
